@@ -694,7 +694,8 @@ def correspondence(ctx):
         meta.append((obs, err, scales(c0, sp, sv_), {"start": f0, "tag0": tag0, "ops": ops, "x": x, "date": date, "cov": c0.tolist()}))
         changes = sum(1 for i, o in enumerate(obs) if o[1] != (obs[i - 1][1] if i else tag0))
         out.count(key=req, nontrivial=changes > 0, kind="history", length=len(ops), tagchanges=changes, start=f0, error=err or "none",
-                  starttag="local" if tag0 in LOCAL else "frame")
+                  starttag="local" if tag0 in LOCAL else "frame", reattachments=sum(1 for o in ops if o[0] == "a"),
+                  statehops=sum(1 for o in ops if o[0] == "s"))
     for _ in range(ctx.n(300, 5000)):
         from beyond.frames.local import to_local
         x = gen_state(rng)
